@@ -1,4 +1,5 @@
-(* C03 (placement part only) -- grid placement is total: on the stated domain it never overflows i16/u16/usize
+(* C03 -- first part: grid placement is total (the whole grid container, `C03_grid_container_never_panics`, is at the end of the file)
+   -- grid placement is total: on the stated domain it never overflows i16/u16/usize
    arithmetic, never indexes the occupancy matrix out of bounds, never asks it to expand towards negative indices,
    never hits a panic!/assert!, and every search loop finishes within its fuel.
    The rest of C03 (tree index errors, fr / flexible-length loops, finiteness of outputs) is handled elsewhere.
@@ -123,3 +124,107 @@ Print Assumptions C03_flex_loop_terminates.
 Print Assumptions C03_fr_search_terminates.
 Print Assumptions C03_maximise_distribution_terminates.
 Print Assumptions C03_index_errors.
+
+(* ------------------------------------------------------------------------------------------------------------------
+   The whole grid container (Model/GridAlg.v `grid_alg`, compute_grid_layout as a resumption) never reaches a Rust panic site.
+   `grid_no_panic st children inp` collects every panic site the algorithm can reach: (1) placement's checked arithmetic
+   (`place` returns Err), (2) the placed items' conversion to track-vector indices (`make_item`: OriginZeroLine::into_track_vec_index
+   asserts), (3) every box-generating ABSOLUTE child's lines must lie inside the implicit grid (`oof_ok`, the same assertion in the
+   final loop).  Domain `grid_domain` = the domain of C03_placement_total transported to styles: the explicit track counts that
+   compute_grid_layout computes (`explicit_counts`; with an auto-repeat template they depend on the float container size) at most 64
+   per axis, at most 64 children of any kind, every grid_row / grid_column line in [-64, 64] (0 included), every span in [1, 64].
+   NO premise on any number (sizes, gaps, available space: any `Num`, NaN and infinities included).
+   `grid_domain_static`: the bound on the counts read off the templates alone (no auto-repeat entry, at most 64 tracks) -- then the
+   statement holds for EVERY input. *)
+From TV Require Model.FlexAlgBase Model.GridAlgBase Model.GridAlg Model.GridAlgTotal Model.GridNoPanicExample Proofs.GridNoPanic.
+
+Theorem C03_grid_container_never_panics :
+  forall (T : Type) (NT : TV.Num.Num.Num T) (st : TV.Model.GridAlgBase.GStyle T) (children : list (TV.Model.GridAlgBase.GStyle T))
+         (inp : TV.Model.FlexAlgBase.FIn T),
+    TV.Proofs.GridNoPanic.grid_domain st children inp -> TV.Model.GridAlg.grid_no_panic st children inp = true.
+Proof. exact (@TV.Proofs.GridNoPanic.grid_no_panic_on_domain). Qed.
+
+(* (1) the estimate and placement succeed in checked machine arithmetic *)
+Theorem C03_grid_container_never_panics_placement_ok :
+  forall (T : Type) (NT : TV.Num.Num.Num T) (st : TV.Model.GridAlgBase.GStyle T) (children : list (TV.Model.GridAlgBase.GStyle T))
+         (inp : TV.Model.FlexAlgBase.FIn T),
+    TV.Proofs.GridNoPanic.grid_domain st children inp ->
+    exists m items,
+      TV.Model.GridAlg.place st (fst (TV.Model.GridAlg.explicit_counts st (TV.Model.GridAlg.grid_pre st inp)))
+                                (snd (TV.Model.GridAlg.explicit_counts st (TV.Model.GridAlg.grid_pre st inp)))
+                                (TV.Model.GridAlg.estimate_styles children) (TV.Model.GridAlg.in_flow_styles children) = Ok (m, items).
+Proof. exact (@TV.Proofs.GridNoPanic.grid_placement_ok). Qed.
+
+(* (2) every placed item's lines convert to track-vector indices (whatever the track vectors `cols`, `rows` are) *)
+Theorem C03_grid_container_never_panics_items_ok :
+  forall (T : Type) (NT : TV.Num.Num.Num T) (st : TV.Model.GridAlgBase.GStyle T) (children : list (TV.Model.GridAlgBase.GStyle T))
+         (inp : TV.Model.FlexAlgBase.FIn T) m items cols rows,
+    TV.Proofs.GridNoPanic.grid_domain st children inp ->
+    TV.Model.GridAlg.place st (fst (TV.Model.GridAlg.explicit_counts st (TV.Model.GridAlg.grid_pre st inp)))
+                              (snd (TV.Model.GridAlg.explicit_counts st (TV.Model.GridAlg.grid_pre st inp)))
+                              (TV.Model.GridAlg.estimate_styles children) (TV.Model.GridAlg.in_flow_styles children) = Ok (m, items) ->
+    exists items0,
+      mapM (TV.Model.GridAlg.make_item st (TV.Model.GridAlg.in_flow_styles children) (track_counts m Horizontal) (track_counts m Vertical)
+                                       cols rows) items = Ok items0.
+Proof. exact (@TV.Proofs.GridNoPanic.grid_items_ok). Qed.
+
+(* (3) every box-generating absolute child's lines lie inside the final implicit grid: the estimate is computed over ALL box-generating
+   children, the absolute ones included, and placement only ever grows the positive implicit counts *)
+Theorem C03_grid_container_never_panics_absolute_ok :
+  forall (T : Type) (NT : TV.Num.Num.Num T) (st : TV.Model.GridAlgBase.GStyle T) (children : list (TV.Model.GridAlgBase.GStyle T))
+         (inp : TV.Model.FlexAlgBase.FIn T) m items,
+    TV.Proofs.GridNoPanic.grid_domain st children inp ->
+    TV.Model.GridAlg.place st (fst (TV.Model.GridAlg.explicit_counts st (TV.Model.GridAlg.grid_pre st inp)))
+                              (snd (TV.Model.GridAlg.explicit_counts st (TV.Model.GridAlg.grid_pre st inp)))
+                              (TV.Model.GridAlg.estimate_styles children) (TV.Model.GridAlg.in_flow_styles children) = Ok (m, items) ->
+    forallb (TV.Model.GridAlg.oof_ok (track_counts m Horizontal) (track_counts m Vertical))
+            (map TV.Model.GridAlg.oof_view children) = true.
+Proof. exact (@TV.Proofs.GridNoPanic.grid_absolute_ok). Qed.
+
+(* what matters for the engine: on the domain the total algorithm the engine theorems are about IS compute_grid_layout's model -- the
+   stand-in for a panic (Model/GridAlgTotal.v) is never evaluated *)
+Theorem C03_grid_alg_total_is_grid_alg :
+  forall (T : Type) (NT : TV.Num.Num.Num T) (st : TV.Model.GridAlgBase.GStyle T) (children : list (TV.Model.GridAlgBase.GStyle T))
+         (inp : TV.Model.FlexAlgBase.FIn T),
+    TV.Proofs.GridNoPanic.grid_domain st children inp ->
+    TV.Model.GridAlgTotal.grid_alg_total st children inp = TV.Model.GridAlg.grid_alg st children inp.
+Proof. exact (@TV.Proofs.GridNoPanic.grid_alg_total_on_domain). Qed.
+
+(* premise-free on the numbers AND on the input: templates without auto-repeat with at most 64 tracks *)
+Theorem C03_grid_container_never_panics_static :
+  forall (T : Type) (NT : TV.Num.Num.Num T) (st : TV.Model.GridAlgBase.GStyle T) (children : list (TV.Model.GridAlgBase.GStyle T)),
+    TV.Proofs.GridNoPanic.grid_domain_static st children ->
+    forall inp : TV.Model.FlexAlgBase.FIn T,
+      TV.Model.GridAlg.grid_no_panic st children inp = true /\
+      TV.Model.GridAlgTotal.grid_alg_total st children inp = TV.Model.GridAlg.grid_alg st children inp.
+Proof.
+  intros T NT st children Hd inp.
+  split; [exact (TV.Proofs.GridNoPanic.grid_no_panic_static st children Hd inp)|exact (TV.Proofs.GridNoPanic.grid_alg_total_static st children Hd inp)].
+Qed.
+
+(* non-vacuity (Model/GridNoPanicExample.v: 3 x 2 explicit tracks; children `auto / -3`, `0 / span 3` x `-7 / span 2`, an ABSOLUTE child
+   on `-9 / auto` x `12 / 12`, a display:none child, an auto child): the example is in both domains for every number structure, the
+   predicate COMPUTES to true on it over the exact rationals, and to false with one more child outside the domain
+   (grid-column: 32767 / span 2: `track + span` overflows i16 in the estimate) *)
+Example C03_grid_container_example_in_domain :
+  forall (T : Type) (NT : TV.Num.Num.Num T),
+    TV.Proofs.GridNoPanic.grid_domain_static (T := T) TV.Model.GridNoPanicExample.ex_container TV.Model.GridNoPanicExample.ex_children /\
+    forall inp, TV.Proofs.GridNoPanic.grid_domain (T := T) TV.Model.GridNoPanicExample.ex_container TV.Model.GridNoPanicExample.ex_children inp.
+Proof. intros T NT. split; [exact TV.Proofs.GridNoPanic.example_in_domain_static|exact TV.Proofs.GridNoPanic.example_in_domain]. Qed.
+
+Example C03_grid_container_example_computed :
+  TV.Model.GridAlg.grid_no_panic (T := TV.Num.QNum.XQ) TV.Model.GridNoPanicExample.ex_container TV.Model.GridNoPanicExample.ex_children
+                                 TV.Model.GridNoPanicExample.ex_input = true /\
+  TV.Model.GridAlg.grid_no_panic (T := TV.Num.QNum.XQ) TV.Model.GridNoPanicExample.ex_container
+                                 (TV.Model.GridNoPanicExample.ex_children ++ [TV.Model.GridNoPanicExample.ex_far_child])
+                                 TV.Model.GridNoPanicExample.ex_input = false.
+Proof. split; [exact TV.Proofs.GridNoPanic.example_computed|exact TV.Proofs.GridNoPanic.example_outside_domain]. Qed.
+
+Print Assumptions C03_grid_container_never_panics.
+Print Assumptions C03_grid_container_never_panics_placement_ok.
+Print Assumptions C03_grid_container_never_panics_items_ok.
+Print Assumptions C03_grid_container_never_panics_absolute_ok.
+Print Assumptions C03_grid_alg_total_is_grid_alg.
+Print Assumptions C03_grid_container_never_panics_static.
+Print Assumptions C03_grid_container_example_in_domain.
+Print Assumptions C03_grid_container_example_computed.
